@@ -1,12 +1,12 @@
 package main
 
 import (
-	"strings"
 	"encoding/json"
 	"fmt"
 	"os"
 	"path/filepath"
 	"sort"
+	"strings"
 
 	"verif/layera"
 	"verif/layerb"
@@ -90,8 +90,8 @@ func runC01(opt *Options) int {
 	}
 	// (b) kernel K3: namer
 	la := &laRun{
-		Opt:     opt,
-		Pkgs:    []string{"namer", "config"},
+		Opt:  opt,
+		Pkgs: []string{"namer", "config"},
 		Kernels: []layera.Kernel{
 			{Name: "K3.namer", Pkg: "namer", Harness: "VerifHarness_C01_Namer", Unwind: 40, MaxPaths: 2000000},
 			// the package clause of an emitted file: the last output:package line alone decides path and name
@@ -101,8 +101,8 @@ func runC01(opt *Options) int {
 			// loop index / map / helper names never repeat within a method (declared twice, shadowed)
 			{Name: "K9.namerloops", Pkg: "namer", Harness: "VerifHarness_C13_NamerLoops", Unwind: 200, LoopsBounded: true},
 		},
-		Funcs:   []string{"config.parseConverterLine (output:package arm)", "config.getPackages", "namer.New", "namer.(*Namer).Register", "namer.(*Namer).Name", "namer.(*Namer).Index", "namer.(*Namer).Map"},
-		Bounds:  "namer states built by <= 3 Register calls with arbitrary names of 1..3 bytes over {c,i,j,k,e,y,v,a,l,u,2,3} (contains every identifier the namer itself proposes up to 3 bytes), requested base name likewise; unwind 40 asserted",
+		Funcs:  []string{"config.parseConverterLine (output:package arm)", "config.getPackages", "namer.New", "namer.(*Namer).Register", "namer.(*Namer).Name", "namer.(*Namer).Index", "namer.(*Namer).Map"},
+		Bounds: "namer states built by <= 3 Register calls with arbitrary names of 1..3 bytes over {c,i,j,k,e,y,v,a,l,u,2,3} (contains every identifier the namer itself proposes up to 3 bytes), requested base name likewise; unwind 40 asserted",
 		Assume: []string{
 			"gate (not a solver verdict): every file emitted for the corpus (F-name, F-shape, F-custom) is type-checked with go/types together with its input package and compared with the declared API; a failure is reported as a C01 violation",
 			"the universal claim over programs (arbitrary user names, layouts) is outside: rendering goes through jennifer and go/format",
@@ -111,11 +111,11 @@ func runC01(opt *Options) int {
 	}
 	lares := la.run()
 	gate := map[string]interface{}{
-		"gate_programs_checked":   gateChecked,
-		"gate_failures":           len(findings),
-		"gate_known":              kh,
-		"gate_samples":            gateSamples,
-		"gate_note":               "type-check + API conformance of emitted code; not decided by the solver",
+		"gate_programs_checked": gateChecked,
+		"gate_failures":         len(findings),
+		"gate_known":            kh,
+		"gate_samples":          gateSamples,
+		"gate_note":             "type-check + API conformance of emitted code; not decided by the solver",
 		"gate_generation_rejected_expected_success": len(res.GenFail),
 		"gate_generation_accepted_expected_failure": len(res.GenUnexp),
 	}
